@@ -173,12 +173,16 @@ def op_thermal_job(w, s):
     from simlab.chain import sweep_ready
     if not sweep_ready(e.obj):
         return "skipped"  # the job canonicalises its initial state (asserts a sweep-ready centre)
-    y = tens(e).astype(complex)
-    for _k in range(6):
-        y = H @ y
-        if float(np.linalg.norm(y)) < 1e-10 * hn ** (_k + 1) * float(np.linalg.norm(tens(e))):
-            w.stats.probes["thermal_kernel_state_skipped"] += 1
-            return "skipped"  # H^k rho vanishes: a zero operand cannot be canonicalised (loud refusal of P&C)
+    t0 = tens(e).astype(complex)
+    e0 = float(np.real(np.vdot(t0, H @ t0)) / max(float(np.real(np.vdot(t0, t0))), 1e-300))
+    for shift in (0.0, e0):
+        # the job re-offsets the Hamiltonian by the current energy: (H - <H>) rho vanishes for an eigenstate (e.g. uncoupled electrons)
+        y = t0
+        for _k in range(6):
+            y = H @ y - shift * y
+            if float(np.linalg.norm(y)) < 1e-10 * hn ** (_k + 1) * float(np.linalg.norm(t0)):
+                w.stats.probes["thermal_kernel_state_skipped"] += 1
+                return "skipped"  # (H - E)^k rho vanishes: a zero operand cannot be canonicalised (loud refusal of P&C)
     if hn * tau > 0.5 or hn < 1e-3:
         return "skipped"
     if abs(float(np.linalg.norm(tens(e))) - 1.0) > 1e-9:
